@@ -20,11 +20,23 @@ def solved(o):
 
 
 def utol(o):
-    """bound on the error of any reported displacement of this run: 2 eps max_i sum_j |K^-1_ij|"""
-    rows = P.inverse_row_sums(o)
-    if rows is None:
+    """bound on the error of any reported displacement of this run.  The exact residual r of the
+    solver's answer is known (rationals), and u - u* = -K^-1 r: the error is evaluated (float
+    inverse, x10 for its own inaccuracy) instead of being bounded by eps * ||K^-1||."""
+    import numpy as np
+    n = len(o["F"])
+    K = np.zeros((n, n))
+    for e in o["KEntries"]:
+        K[int(e[0]), int(e[1])] = float(e[2])
+    r, _ = P.residuals(o)
+    try:
+        err = np.linalg.solve(K, np.array([float(x) for x in r]))
+    except np.linalg.LinAlgError:
         return None
-    return 2 * F(o["MaxError"]) * max(rows) + Fr(1, 10 ** 12) * max([abs(F(v)) for v in o["U"]] + [Fr(0)])
+    if not np.all(np.isfinite(err)):
+        return None
+    umax = max([abs(F(v)) for v in o["U"]] + [Fr(0)])
+    return 10 * Fr(float(np.max(np.abs(err)))) + Fr(1, 10 ** 11) * umax + Fr(1, 10 ** 300)
 
 
 def amplification(o):
@@ -78,7 +90,7 @@ class Transform:
 
 # sign changes of a reversed bar (local x and y both flip; t -> 1 - t; left/right swap)
 REV_LOCAL = (-1, -1, 1)          # ldx, ldy, lrz
-REV_DIAG = (1, -1, 1, 1)         # axial stress, shear, bending moment, top fibre
+REV_DIAG = (1, 1, -1, -1)         # axial stress, shear, bending moment, top fibre (Proofs/PlacementProofs.v recover_reversal_R)
 
 
 def compare(oA, oB, tr, tolU, what, max_fails=4, check_diagrams=True):
